@@ -358,6 +358,10 @@ pub mod model_waker {
     pub fn reset() {
         m::model_reset()
     }
+    /// ring-buffer FIFO for harnesses with more than 8 queued slots
+    pub fn set_big_queue(on: bool) {
+        m::set_big_queue(on)
+    }
     /// enable the modelling of enqueues in flight (two-phase wakes)
     pub fn set_two_phase(on: bool) {
         m::set_two_phase(on)
@@ -483,4 +487,33 @@ impl RawList {
         assert!(i < self.cap);
         self.list.verif_get(i)
     }
+}
+
+/// `FuturesOrdered` with ONE inner group of capacity `cap` in an arbitrary
+/// representation state (`slot(i)`: `Ok((future, position))` / `Err(next_free)`)
+pub fn fo_from_parts_1<F: Future>(
+    cap: usize,
+    mut slot: impl FnMut(usize) -> Result<(F, usize), usize>,
+    free_head: usize,
+    qlen: usize,
+    q: &[QEntry],
+    stored: &Waker,
+    armed: bool,
+    next_in: usize,
+    next_out: usize,
+) -> crate::FuturesOrdered<F> {
+    let inner = fub_from_parts(
+        cap,
+        |i| slot(i).map(|(f, index)| OrderWrapper { data: f, index }),
+        free_head,
+        qlen,
+        q,
+        stored,
+        armed,
+    );
+    let rem = inner.len();
+    let mut groups = alloc::vec::Vec::with_capacity(2);
+    groups.push(inner);
+    let fu = crate::FuturesUnordered::verif_from_parts(groups, rem, 0);
+    crate::FuturesOrdered::verif_from_parts(fu, next_in, next_out)
 }
